@@ -52,12 +52,18 @@ type fakeBody struct {
 	gated   bool
 	avail   int
 	blocked int
+	// emptyReadAt > 0: the Read with this ordinal returns (0, nil) once - which io.Reader permits (and
+	// discourages); it means "nothing happened", not the end of anything
+	emptyReadAt int
 }
 
 func (b *fakeBody) Read(p []byte) (int, error) {
 	b.reads++
 	if b.onRead != nil {
 		b.onRead()
+	}
+	if b.emptyReadAt > 0 && b.reads == b.emptyReadAt && len(p) > 0 {
+		return 0, nil
 	}
 	if b.gated && b.pos >= b.avail {
 		b.blocked++
@@ -102,6 +108,9 @@ type fakeSink struct {
 	flushes     []int // body length at each Flush
 	writeErrAt  int   // fail writes once body reached this many bytes (-1 = never)
 	writesAfter int
+	// onWrite, when set, runs at the start of every Write: what other goroutines do while this Write is
+	// "blocked" in the transport (flow control, a slow client)
+	onWrite func()
 }
 
 func newFakeSink() *fakeSink {
@@ -119,6 +128,9 @@ func (s *fakeSink) WriteHeader(code int) {
 }
 
 func (s *fakeSink) Write(p []byte) (int, error) {
+	if s.onWrite != nil {
+		s.onWrite()
+	}
 	if s.heads == 0 {
 		s.WriteHeader(http.StatusOK)
 	}
@@ -179,6 +191,7 @@ type backendRecord struct {
 	calls      int
 	method     string
 	path       string
+	wirePath   string // URL.EscapedPath(): the path as an HTTP client or reverse proxy puts it on the wire
 	rawQuery   string
 	proto      string
 	protoMajor int
